@@ -580,7 +580,13 @@ impl MutableArchive {
             .listfile_option(ListfileOption::Generate);
 
         // First, get the list of files if available
-        let file_list = self.list().ok();
+        let file_list = match self.list() {
+            Ok(list) => Some(list),
+            // Without the real names the compacted archive would be written under
+            // placeholder names; an I/O failure must abort instead.
+            Err(Error::Io(e)) => return Err(Error::Io(e)),
+            Err(_) => None,
+        };
 
         // Collect all active files
         let mut files_to_copy = Vec::new();
@@ -630,6 +636,9 @@ impl MutableArchive {
             // Read the file data
             let file_data = match self.read_file(filename) {
                 Ok(data) => data,
+                // An I/O failure says nothing about the file itself: abort and leave the
+                // original archive in place instead of silently dropping the file.
+                Err(Error::Io(e)) => return Err(Error::Io(e)),
                 Err(_) => {
                     // Skip files we can't read
                     log::warn!("Skipping file {filename} during compaction (read error)");
